@@ -1,9 +1,10 @@
--- witness: java|BIntLength-is-bitCount
+-- witness: java|BIntLength-zero-and-negative-powers
 -- Q: 1
--- gjBValInfoTable: {FOAM_BVal_BIntLength, GJ_Meth, 0, "bitCount"}: BigInteger.bitCount() is the
--- number of one bits, the builtin is the bit length (interpreter / C: 101 for 2^100, Java: 1).
+-- gjBValInfoTable: {FOAM_BVal_BIntLength, GJ_Meth, 0, "bitLength"} (after fix d12cda4): BigInteger.bitLength()
+-- is the length of the two's-complement form without the sign bit: 0 for 0 and for -1, k for -2^k.
+-- The builtin (bintLength) is the length of the magnitude: 1 for 0 and -1, k+1 for -2^k.
 #include "aldor"
 #include "aldorio"
-import from MachineInteger, Integer;
-p: Integer := 2^100;
-stdout << "length " << length p << " " << length(p - 1) << newline;
+import from MachineInteger, Integer, List Integer;
+l: List Integer := [0, -1, -2, -4, -256, -(2^64), -(2^100)];
+for x in l repeat stdout << x << " length " << length x << newline;
